@@ -131,12 +131,15 @@ func checkUniform(lp []*limbPool, key, what string) error {
 // [P/2, 1-P, P/2]; a Gaussian of parameter sigma rounded to integers has variance sigma^2 + 1/12 up to truncation).
 func nominalStd(d h.DistSpec, n int) float64 {
 	if d.Kind == "gauss" {
-		return math.Sqrt(d.Sigma*d.Sigma + 1.0/12)
+		return math.Sqrt(gaussStats(d).vari)
 	}
 	return d.Std(n)
 }
 
 func secretVar(d h.DistSpec, n int) float64 {
+	if d.Kind == "gauss" {
+		return gaussStats(d).vari
+	}
 	s := d.Std(n)
 	return s * s
 }
@@ -290,7 +293,7 @@ func runStat(c StatCase, rec *h.Rec) error {
 		var prev *rlwe.PublicKey
 		for errs.n < statSamples {
 			pk := kgen.GenPublicKeyNew(sk)
-			if prev != nil && (qpEqual(prev.Value[0], pk.Value[0], lq, lp) || qpEqual(prev.Value[1], pk.Value[1], lq, lp)) {
+			if prev != nil && ((!sStat.zero && qpEqual(prev.Value[0], pk.Value[0], lq, lp)) || qpEqual(prev.Value[1], pk.Value[1], lq, lp)) {
 				return h.Failf(key+":repeat:component-equal", "two public keys of the same secret share a component")
 			}
 			prev = pk
